@@ -361,3 +361,13 @@ func ReplaySpec(v interface{}) bool {
 	}
 	return true
 }
+
+// Epoch2011 advances the virtual clock of a fresh synctest bubble (which starts at
+// 2000-01-01) to 2011-01-01: the code under test treats times before 2010 as implausible
+// (stage.isFileReady restarts its log look-back when it gets "farther back than 2010"), and
+// the vos shim recognises virtual times as lying before 2015.
+func Epoch2011() {
+	if d := time.Until(time.Date(2011, 1, 1, 0, 0, 0, 0, time.UTC)); d > 0 && time.Now().Year() < 2011 {
+		time.Sleep(d)
+	}
+}
